@@ -210,6 +210,25 @@ def run(ctx):
     ctx.check(bool(ls.calls_to("lang::line::Line::new")), "C05.f", "load_str/Line::new", ls.span,
               "load_str lexes with Line::new (guard checked by C03.d)")
 
+    # the two doors into the store measure a line the same way and against the same limit
+    meas = {}
+    for fn in ("mach::runtime::Runtime::enter", "mach::listing::Listing::load_str"):
+        g = cr.need_fn(fn)
+        ctx.touch(g)
+        for _b, _i, st in g.assigns():
+            rv = st["rv"]
+            if rv["k"] == "binop" and rv["op"] in ("Gt", "Ge") and \
+                    g.describe(rv["r"]) == "const:1024":
+                d = g.describe(rv["l"])
+                m = re.match(r"^call:([^()]+)\(", d)
+                meas[fn] = (rv["op"], m.group(1) if m else d[:60])
+    ctx.check(len(meas) == 2 and len(set(meas.values())) == 1, "C05.f", "line-limit/same-measure",
+              "", "enter() and load_str() both reject `%s > 1024`"
+              % (next(iter(meas.values()))[1] if meas else "?"),
+              "the typed-line door and the LOAD door measure a line differently (%s): a line "
+              "accepted by one is refused by the other, so a stored line can fail to LOAD again "
+              "(multi-byte text: characters vs bytes)" % meas)
+
     # ---- g: separator
     lnd = cr.need_fn("<lang::line::Line as std::fmt::Display>::fmt")
     ctx.touch(lnd)
